@@ -221,7 +221,47 @@ func c30Free(f []string) string {
 		}
 	}
 	first, last := c04Range(ws)
+	// "for every day it reflects the blocks of some write-out that had completed": the answer is judged per
+	// interface (each history of these cases lies within one day) — a query over several interfaces reads
+	// them one after the other and may see a later state of the second one
 	allowedQ, allowedL := map[string]bool{}, map[string]bool{}
+	addQ := func(q string) {
+		for _, part := range c30PerIface(q) {
+			allowedQ[part] = true
+		}
+	}
+	addL := func(l string) {
+		for _, e := range splitSemi(l) {
+			allowedL[e] = true
+		}
+	}
+	var mustHave []string // interfaces that hold data from the start: they can never be missing from an answer
+	okQ := func(q string) bool {
+		parts := c30PerIface(q)
+		for _, part := range parts {
+			if !allowedQ[part] {
+				return false
+			}
+		}
+		for _, ifc := range mustHave {
+			found := false
+			for _, part := range parts {
+				found = found || strings.HasPrefix(part, ifc+"=")
+			}
+			if !found {
+				return false
+			}
+		}
+		return true
+	}
+	okL := func(l string) bool {
+		for _, e := range splitSemi(l) {
+			if !allowedL[e] {
+				return false
+			}
+		}
+		return true
+	}
 	// expected answers for every committed prefix, computed on scratch databases through the same code
 	for j := k0; j <= len(ws); j++ {
 		ref := filepath.Join(work, fmt.Sprintf("ref%d", j))
@@ -229,8 +269,14 @@ func c30Free(f []string) string {
 		for _, w := range ws[:j] {
 			_ = writeOut(ref, w.Iface, w.TS, w.Drops, w.Flows, encoders.EncoderTypeLZ4)
 		}
-		allowedQ[queryRows(ref, "any", first, last, "")] = true
-		allowedL[c30DropZero(listSummary(ref, first, last))] = true
+		qref := queryRows(ref, "any", first, last, "")
+		addQ(qref)
+		if j == k0 && strings.HasPrefix(qref, "rows=") {
+			for _, part := range c30PerIface(qref) {
+				mustHave = append(mustHave, strings.SplitN(part, "=", 2)[0])
+			}
+		}
+		addL(c30DropZero(listSummary(ref, first, last)))
 		_ = os.RemoveAll(ref)
 	}
 	var rest []string
@@ -251,7 +297,7 @@ func c30Free(f []string) string {
 		n++
 		if k0 == 0 && (q == "err:iface" || strings.HasPrefix(q, "rows=-")) {
 			// empty database: nothing to answer yet
-		} else if !allowedQ[q] {
+		} else if !okQ(q) {
 			<-done
 			if os.Getenv("VERIF_DEBUG") != "" {
 				fmt.Fprintf(os.Stderr, "observed: %s\nallowed:\n", q)
@@ -261,13 +307,13 @@ func c30Free(f []string) string {
 			}
 			return "free=violates:query-not-a-committed-state:" + esc(q[:min(len(q), 60)])
 		}
-		if !allowedL[l] && !(k0 == 0 && (l == "-" || strings.HasSuffix(l, "/0:0:0:0:0:0:0"))) {
+		if !okL(l) && !(k0 == 0 && (l == "-" || strings.HasSuffix(l, "/0:0:0:0:0:0:0"))) {
 			<-done
 			return "free=violates:listing-not-a-committed-state:" + esc(l[:min(len(l), 60)])
 		}
 		select {
 		case <-done:
-			if q2 := queryRows(db, "any", first, last, ""); !allowedQ[q2] {
+			if q2 := queryRows(db, "any", first, last, ""); !okQ(q2) {
 				return "free=violates:final-query"
 			}
 			if n < 3 {
@@ -277,6 +323,32 @@ func c30Free(f []string) string {
 		default:
 		}
 	}
+}
+
+// c30PerIface splits a rendered query answer (rows=iface@ts/…,…|totals=…|hits=…) into one string per
+// interface holding that interface's rows in order ("err…" and empty answers stay whole)
+func c30PerIface(q string) []string {
+	if !strings.HasPrefix(q, "rows=") {
+		return []string{q}
+	}
+	rows := strings.SplitN(strings.TrimPrefix(q, "rows="), "|", 2)[0]
+	by := map[string][]string{}
+	var order []string
+	for _, r := range strings.Split(rows, ",") {
+		if r == "-" || r == "" {
+			continue
+		}
+		ifc := strings.SplitN(r, "@", 2)[0]
+		if _, ok := by[ifc]; !ok {
+			order = append(order, ifc)
+		}
+		by[ifc] = append(by[ifc], r)
+	}
+	var out []string
+	for _, ifc := range order {
+		out = append(out, ifc+"="+strings.Join(by[ifc], ","))
+	}
+	return out
 }
 
 // an interface directory that exists but holds no committed data is listed with zero totals: same as absent
